@@ -14,8 +14,19 @@ import ZV.Proofs.C32
   * `handshake_buffer_bounded`  readHandshake never panics; a delivered message has at most 4 + maxHandshake bytes and the
                                 reassembly buffer always stays below 4 + maxHandshake + maxPlaintext bytes.
   * `handshake_progress`        every delivered message took ≥ 4 bytes out of the stream+buffer: the loop terminates.
-  The state machines on top of the reader, the message parsers and the encrypted phase are NOT modelled: they are
-  explored by the T3 corruption matrix (every position of genuine transcripts in the thorough tier).
+  and, for EVERY record length, record content and result of the cryptographic primitives, about the model of
+  `halfConn.decrypt` + `extractPadding` (stream, CBC with implicit / explicit IV, AEAD with explicit / implicit nonce,
+  TLS 1.3; the decrypted bytes and the MAC / tag verdict are inputs of the model, no cryptography is modelled):
+
+  * `decrypt_no_panic`          no slice, index or modulus expression of decrypt can fail: a protected record of any length
+                                (0 included) and any content is answered with a plaintext or an alert, never a panic.
+  * `cbc_short_record_rejected` a CBC record shorter than explicit IV + MAC + one padding byte — the empty record in
+                                particular — is answered with bad_record_mac before anything is sliced.
+  * `aead_short_record_rejected` an AEAD record shorter than its explicit nonce is answered with bad_record_mac.
+  * `mac_delivers_only_authenticated` the MAC tail hands out a plaintext only when the MAC comparison succeeded.
+  The state machines on top of the reader, the message parsers and the cryptography of the encrypted phase are NOT
+  modelled: they are explored by the T3 matrix (every position of genuine transcripts in the thorough tier, structured
+  forgeries with consistent framing).
   -- FULL (not proved): `skx_parse_no_panic` for the ServerKeyExchange / ClientKeyExchange parameter parsers with raw
   -- index expressions; their accept/reject behaviour is modelled (Option-valued) and T2-tied under C28, and flips at
   -- every position of those messages are part of the T3 matrix here.
@@ -78,5 +89,47 @@ example : ∃ st' rest, readRecord 0x0303 ⟨[], 0, 0⟩ [22, 3, 3, 0, 1, 14] = 
   simp [maxCiphertext, maxCiphertextTLS13, maxPlaintext]
 example : (⟨[], 0, 0⟩ : St).retry ≤ maxUselessRecords := by decide
 example : (⟨[], 0, 0⟩ : St).hand.length < bufBound := by decide
+
+theorem decrypt_no_panic (hc : HC) (hwf : hc.WF) (typ : Nat) (payload dec : Bytes) (auth : Bool) :
+    decrypt hc typ payload dec auth ≠ .panic :=
+  decrypt_ne_panic hc hwf typ payload dec auth
+
+theorem cbc_short_record_rejected (hc : HC) (hwf : hc.WF) (hk : hc.kind = .cbc) (typ : Nat) (payload dec : Bytes) (auth : Bool)
+    (hccs : ¬ (hc.vers = 0x0304 ∧ typ = 20))
+    (hlen : payload.length < explicitNonceLen hc + hc.macSize + 1) :
+    decrypt hc typ payload dec auth = .alert alertBadRecordMAC := by
+  obtain ⟨hb, hm⟩ := hwf hk
+  unfold decrypt
+  rw [if_neg hccs]
+  simp only [hk]
+  have hnm : ¬ (¬ hc.hasMac = true) := by simp [hm]
+  rw [if_neg hnm]
+  have hru : roundUp (hc.macSize + 1) hc.block = .ok (hc.macSize + 1 + (hc.block - (hc.macSize + 1) % hc.block) % hc.block) := by
+    unfold roundUp; rw [if_neg]; omega
+  rw [hru]
+  simp only
+  rw [if_pos]
+  right
+  omega
+
+theorem aead_short_record_rejected (hc : HC) (hk : hc.kind = .aead) (typ : Nat) (payload dec : Bytes) (auth : Bool)
+    (hccs : ¬ (hc.vers = 0x0304 ∧ typ = 20)) (hlen : payload.length < hc.nonce) :
+    decrypt hc typ payload dec auth = .alert alertBadRecordMAC := by
+  unfold decrypt
+  rw [if_neg hccs]
+  simp only [hk]
+  rw [if_pos]
+  simp [explicitNonceLen, hk, hlen]
+
+theorem mac_delivers_only_authenticated (hc : HC) (typ pl : Nat) (payload : Bytes) (padLen : Nat) (good auth : Bool) (t n : Nat)
+    (hm : hc.hasMac = true) (h : macPart hc typ pl payload padLen good auth = .plain t n) : auth = true :=
+  macPart_plain_auth hc typ pl payload padLen good auth t n hm h
+
+/-- the hypotheses are satisfiable: AES-128-CBC-SHA at TLS 1.2 is well-formed, and its EMPTY record is short -/
+example : (⟨.cbc, 0x0303, 16, 0, 0, true, 20⟩ : HC).WF := fun _ => ⟨by decide, rfl⟩
+example : ([] : Bytes).length < explicitNonceLen ⟨.cbc, 0x0303, 16, 0, 0, true, 20⟩ + 20 + 1 := by decide
+example : decrypt ⟨.cbc, 0x0303, 16, 0, 0, true, 20⟩ 23 [] [] false = .alert alertBadRecordMAC :=
+  cbc_short_record_rejected _ (fun _ => ⟨by decide, rfl⟩) rfl 23 [] [] false (by decide) (by decide)
+example : ([] : Bytes).length < (⟨.aead, 0x0303, 0, 8, 16, false, 0⟩ : HC).nonce := by decide
 
 end ZV.C32
